@@ -1,10 +1,13 @@
 package route
 
 import (
+	"context"
 	"encoding/json"
 	"fmt"
 	"math/rand"
 	"strings"
+	"time"
+	"verif/internal/backend"
 
 	"google.golang.org/protobuf/reflect/protoreflect"
 	"larking.io/larking"
@@ -30,6 +33,12 @@ type Cand struct {
 	// TgtName overrides the candidate method's short name (to collide with
 	// the short name of a method of another service).
 	TgtName string `json:"tgt_name,omitempty"`
+	// SecondProvider: the candidate service is already served, in an older
+	// revision without the candidate rule(s), by a back-end registered with
+	// RegisterConn; the candidate revision arrives through a second
+	// back-end (version skew between replicas). Acceptance, refusal and
+	// routability are demanded as for a first registration.
+	SecondProvider bool `json:"second_provider,omitempty"`
 }
 
 type class int
@@ -86,6 +95,26 @@ func candRuleSet(c *Cand, id int) (*RuleSet, int) {
 }
 
 // classify decides, independently of larking, what registration must do.
+// approxTokens is an upper estimate of the number of lexer tokens of a
+// template: every structural character and every run between them.
+func approxTokens(tmpl string) int {
+	n := 1
+	for _, ch := range tmpl {
+		switch ch {
+		case '/', '{', '}', '=', ':':
+			n += 2
+		}
+	}
+	return n
+}
+
+func via2(c *Cand) string {
+	if c.SecondProvider {
+		return ":second-provider"
+	}
+	return ""
+}
+
 func classify(c *Cand, rs *RuleSet, cs int) (cl class, reason string, t *tmplref.Template) {
 	if c.Nested {
 		// still classify the template: a malformed one is invalid either way
@@ -113,7 +142,10 @@ func classify(c *Cand, rs *RuleSet, cs int) (cl class, reason string, t *tmplref
 	if t.OddLitStart {
 		mark(unspec, "literal-odd-start")
 	}
-	if len(r.Tmpl) > 120 {
+	// larking's template lexer has a fixed token budget (64): templates that
+	// come near it are refused with an error, which the grammar does not
+	// say; only "no panic" and failure atomicity are demanded there
+	if approxTokens(r.Tmpl) > 50 {
 		mark(unspec, "very-long-template")
 	}
 	md := reqDesc()
@@ -301,6 +333,60 @@ func execCand(r *mon.Run, c *Cand, rng *rand.Rand) {
 			return
 		}
 	}
+	var be2 *backend.Backend
+	if c.SecondProvider {
+		// older revision: same services and methods, no rules on Cnd
+		v1 := &RuleSet{Pkg: rs.Pkg, Services: []string{rs.Services[cs]}}
+		for _, m := range rs.Methods[len(rs.Methods)-2:] {
+			m.Svc = 0
+			m.Rules = nil
+			v1.Methods = append(v1.Methods, m)
+		}
+		// both revisions live in a file of their own that holds nothing but
+		// the candidate service (a back-end's file must only describe what
+		// the back-end serves)
+		spPath := fmt.Sprintf("vf/c16sp%d.proto", c16seq)
+		v2 := &RuleSet{Pkg: rs.Pkg, Services: []string{rs.Services[cs]}}
+		for _, m := range rs.Methods[len(rs.Methods)-2:] {
+			m.Svc = 0
+			v2.Methods = append(v2.Methods, m)
+		}
+		f2, _ := v2.File(v2.IdentityPerm(), spPath)
+		if c.Nested {
+			r.Count("second_provider_nested_skipped", 1)
+			return
+		}
+		fd2, err := f2.Build()
+		if err != nil {
+			r.Count("candidates_refused_by_protodesc", 1)
+			return
+		}
+		f1, _ := v1.File(v1.IdentityPerm(), spPath)
+		fd1, err := f1.Build()
+		if err != nil {
+			r.Count("second_provider_v1_refused_by_protodesc", 1)
+			return
+		}
+		be1, err := backend.Start("c16v1", true, backend.Svc{SD: fd1.Services().Get(0), Impl: b})
+		if err != nil {
+			r.Inconclusive("back-end: " + err.Error())
+			return
+		}
+		defer be1.Close()
+		ctx, cancel := context.WithTimeout(context.Background(), 20*time.Second)
+		err = b.Mux.RegisterConn(ctx, be1.CC)
+		cancel()
+		if err != nil {
+			r.Count("second_provider_v1_not_registrable_skipped", 1)
+			return
+		}
+		if be2, err = backend.Start("c16v2", true, backend.Svc{SD: fd2.Services().Get(0), Impl: b}); err != nil {
+			r.Inconclusive("back-end: " + err.Error())
+			return
+		}
+		defer be2.Close()
+		r.Count("second_provider_candidates", 1)
+	}
 	snap0 := larking.VerifSnapshot(b.Mux)
 	fp0 := larking.VerifFingerprint(snap0)
 	var probes []Req
@@ -326,7 +412,15 @@ func execCand(r *mon.Run, c *Cand, rng *rand.Rand) {
 			}
 		}
 	}
-	rerr, pi := b.Register(cs)
+	var rerr error
+	var pi *mon.PanicInfo
+	if be2 != nil {
+		ctx, cancel := context.WithTimeout(context.Background(), 20*time.Second)
+		pi = mon.Catch(func() { rerr = b.Mux.RegisterConn(ctx, be2.CC) })
+		cancel()
+	} else {
+		rerr, pi = b.Register(cs)
+	}
 	if pi != nil {
 		r.Violate(pi.Key(), fmt.Sprintf("registering %s %q (class %s/%s) panicked: %s", c.Rule.Verb, c.Rule.Tmpl, cl, reason, pi.Value), c)
 		return
@@ -341,7 +435,7 @@ func execCand(r *mon.Run, c *Cand, rng *rand.Rand) {
 	if rerr != nil {
 		r.Count("rejected", 1)
 		if cl == valid {
-			r.Violate("rejected-valid:"+feature(c, t), fmt.Sprintf("well-formed rule %s %q body=%q response_body=%q rejected: %v", c.Rule.Verb, c.Rule.Tmpl, c.Rule.Body, c.Rule.Resp, rerr), c)
+			r.Violate("rejected-valid:"+feature(c, t)+via2(c), fmt.Sprintf("well-formed rule %s %q body=%q response_body=%q rejected: %v", c.Rule.Verb, c.Rule.Tmpl, c.Rule.Body, c.Rule.Resp, rerr), c)
 			return
 		}
 		// failure atomicity
@@ -363,7 +457,7 @@ func execCand(r *mon.Run, c *Cand, rng *rand.Rand) {
 	}
 	r.Count("accepted", 1)
 	if cl == invalid {
-		r.Violate("accepted-invalid:"+reason, fmt.Sprintf("rule %s %q body=%q response_body=%q (%s) was accepted", c.Rule.Verb, c.Rule.Tmpl, c.Rule.Body, c.Rule.Resp, reason), c)
+		r.Violate("accepted-invalid:"+reason+via2(c), fmt.Sprintf("rule %s %q body=%q response_body=%q (%s) was accepted", c.Rule.Verb, c.Rule.Tmpl, c.Rule.Body, c.Rule.Resp, reason), c)
 		return
 	}
 	// previously registered routes are intact after a successful registration
@@ -506,6 +600,13 @@ func RunC16(r *mon.Run) {
 		}
 		verb := pick(rng, ruleVerbs)
 		execCand(r, &Cand{Rule: RuleSpec{Verb: verb, Tmpl: tmpl, Via: "annotation"}, Base: baseFor(), Origin: "grammar"}, rng)
+		if i%5 == 0 {
+			execCand(r, &Cand{Rule: RuleSpec{Verb: verb, Tmpl: tmpl, Via: "annotation"}, Base: baseFor(), Origin: "grammar", SecondProvider: true}, rng)
+			if ms := mutants(tmpl, rng, false); len(ms) > 0 && len(tmpl) <= 34 {
+				execCand(r, &Cand{Rule: RuleSpec{Verb: verb, Tmpl: ms[rng.Intn(len(ms))], Via: "annotation"}, Base: baseFor(), Origin: "single-edit", SecondProvider: true}, rng)
+			}
+			execCand(r, &Cand{Rule: RuleSpec{Verb: verb, Tmpl: "/sp/{no_such_field}", Via: "annotation"}, Base: baseFor(), Origin: "unknown-field", SecondProvider: true}, rng)
+		}
 		if len(tmpl) > 34 {
 			continue
 		}
@@ -553,6 +654,29 @@ func RunC16(r *mon.Run) {
 				cand.Origin = "redeclare-base-same-short-name"
 			}
 			execCand(r, cand, rng)
+		}
+	}
+	// (e2) template length sweep: four families, 1..40 segments, on an empty
+	// and a populated mux; short ones must be accepted and route, every
+	// length must come back without a panic
+	for n := 1; n <= 40; n++ {
+		var ls []string
+		for i := 0; i < n; i++ {
+			ls = append(ls, lits[i%len(lits)]+fmt.Sprint(i))
+		}
+		fam := []string{
+			"/" + strings.Join(ls, "/"),
+			"/{a}/" + strings.Join(ls, "/"),
+			"/" + strings.Join(ls, "/") + "/{b=bk/*}",
+			"/" + strings.Join(ls, "/") + ":go",
+			"/" + strings.Join(ls, "/") + "/{c=**}",
+		}
+		for fi, tmpl := range fam {
+			var base *RuleSet
+			if (n+fi)%2 == 0 {
+				base = baseFor()
+			}
+			execCand(r, &Cand{Rule: RuleSpec{Verb: "GET", Tmpl: tmpl, Via: []string{"annotation", "config"}[(n+fi)%2]}, Base: base, Origin: "length-sweep"}, rng)
 		}
 	}
 	// (f) late failure: Tgt's valid rule extends a base rule (so its nodes
